@@ -735,9 +735,115 @@ func depStuck(s *scen, blockedG *sync.Map) bool {
 	return idle > 0 && s.tr.Now() == seq0
 }
 
+// ---- Clear() in the middle of a history -------------------------------------------
+//
+// DefaultTaskQueue.Clear drops the pending tasks; tasks added afterwards are
+// owed like any other. The harness calls Clear only while no worker can touch
+// the queue (every worker is blocked inside a task).
+func runClear(c *core.Ctx, idx int) {
+	stream := "clear"
+	r := c.Rng(stream, idx)
+	tr := sched.NewTracer()
+	q := &pool.DefaultTaskQueue{}
+	s := newScen(tr, 512)
+	s.tp = pool.NewThreadPoolWithQueue(q)
+	tr.Filter = func(p string, a []interface{}) bool { return len(a) > 0 && a[0] == s.tp }
+	tr.Install()
+	defer sched.Uninstall()
+	workers := r.Range(1, 3)
+	rounds := r.Range(1, 4)
+	desc := fmt.Sprintf("workers=%d rounds=%d", workers, rounds)
+	c.Begin(0, stream, idx, desc)
+	defer c.End(0)
+	s.tp.SetWorkerCount(workers, false)
+	dropped := map[int]bool{}
+	for rd := 0; rd < rounds; rd++ {
+		// some tasks that finish, then one blocker per worker, then tasks that stay queued
+		pre := r.Range(0, 4)
+		for i := 0; i < pre; i++ {
+			s.add(0, 0)
+		}
+		release := make(chan struct{})
+		var inside int32
+		for w := 0; w < workers; w++ {
+			s.addTask(&task{onRun: func(int) { atomic.AddInt32(&inside, 1); <-release }})
+		}
+		nq := r.Range(1, 6)
+		var queued []int
+		for i := 0; i < nq; i++ {
+			queued = append(queued, s.add(0, 0))
+		}
+		// wait (no pool call) until every worker sits in a blocker
+		ok := false
+		for i := 0; i < 40000; i++ {
+			if int(atomic.LoadInt32(&inside)) == workers {
+				ok = true
+				break
+			}
+			time.Sleep(50 * time.Microsecond)
+		}
+		if !ok {
+			c.Inconclusive("blockers did not all start", stream, idx, map[string]interface{}{"case": desc})
+			close(release)
+			s.tp.JoinAll()
+			return
+		}
+		q.Clear()
+		for _, id := range queued {
+			dropped[id] = true
+		}
+		desc += fmt.Sprintf(" [pre=%d queued-then-cleared=%d", pre, nq)
+		na := r.Range(1, 6)
+		for i := 0; i < na; i++ {
+			s.add(0, 0)
+		}
+		desc += fmt.Sprintf(" added-after-clear=%d]", na)
+		close(release)
+		res, v := s.awaitOrStuck(func() bool {
+			for i := 0; i < s.n(); i++ {
+				if !dropped[i] && atomic.LoadInt32(&s.ended[i]) == 0 {
+					return false
+				}
+			}
+			return true
+		}, 3000)
+		if res == "stuck" {
+			reportStuck(c, s, stream, idx, desc, v, "after Clear")
+			s.tp.JoinAll()
+			return
+		}
+		if res == "inconclusive" {
+			c.Inconclusive("tasks added after Clear neither finished nor pool stuck", stream, idx, map[string]interface{}{"case": desc, "trace": traceTail(tr, s.tp, 40)})
+			s.tp.JoinAll()
+			return
+		}
+	}
+	s.tp.JoinAll()
+	for i := 0; i < s.n(); i++ {
+		st, en := atomic.LoadInt32(&s.started[i]), atomic.LoadInt32(&s.ended[i])
+		if dropped[i] {
+			if st != 0 {
+				c.Violation("clear:dropped-task-ran", fmt.Sprintf("task %d was pending when Clear was called and ran afterwards", i), stream, idx, map[string]interface{}{"case": desc})
+				break
+			}
+			continue
+		}
+		if st != 1 || en != 1 {
+			c.Violation("clear:task-after-clear-lost", fmt.Sprintf("task %d (not pending at any Clear) started %d times, ended %d times", i, st, en), stream, idx, map[string]interface{}{"case": desc, "trace": traceTail(tr, s.tp, 40)})
+			break
+		}
+	}
+	if q.Size() != 0 {
+		c.Violation("clear:size", fmt.Sprintf("queue reports size %d after everything ran", q.Size()), stream, idx, map[string]interface{}{"case": desc})
+	}
+	c.Nontrivial(sched.Signature(tr.Snapshot(), onlyPool))
+	c.Event("clear.scenarios", 1)
+	countEvents(c, tr)
+}
+
 // Run is the check.
 func Run(c *core.Ctx) {
-	c.Note("rule", "directed gates: 6 templates (submit, burst, resize down (wait/no wait), JoinAll, WaitAll) x 5 worker hold points x 3 partner points x {1,2,3} workers, each holding one worker at the hold point until the partner call passed its point (infeasible pairs are released and counted); dep: rounds of task pairs where the first waits inside Run for the start of the second (2..6 workers) decided by a stuck predicate that accepts workers blocked inside waiting tasks; noise: seeded random scenarios (1..16 workers, bursts, single submissions separated by idle periods with no pool call, concurrent submitters, WaitAll, resizes with/without wait, tasks that sleep or submit children) with random yields/sleeps at lock-free hook points; monitors: exactly-once table per task id, stuck-state predicate over the hook trace + scheduler state (Cond.Wait) for lost wake-ups and non-converging worker counts, stamp order for WaitAll/JoinAll/SetWorkerCount returns; non-trivial/distinct = distinct interleaving signatures (hash of the (goroutine role, hook point) sequence) plus feasible gate cases")
+	c.Note("rule", "directed gates: 6 templates (submit, burst, resize down (wait/no wait), JoinAll, WaitAll) x 5 worker hold points x 3 partner points x {1,2,3} workers, each holding one worker at the hold point until the partner call passed its point (infeasible pairs are released and counted); clear: DefaultTaskQueue.Clear called while every worker is blocked inside a task, in the middle of a history of pops (tasks added afterwards are owed, cleared ones must not run); dep: rounds of task pairs where the first waits inside Run for the start of the second (2..6 workers) decided by a stuck predicate that accepts workers blocked inside waiting tasks; noise: seeded random scenarios (1..16 workers, bursts, single submissions separated by idle periods with no pool call, concurrent submitters, WaitAll, resizes with/without wait, tasks that sleep or submit children) with random yields/sleeps at lock-free hook points; monitors: exactly-once table per task id, stuck-state predicate over the hook trace + scheduler state (Cond.Wait) for lost wake-ups and non-converging worker counts, stamp order for WaitAll/JoinAll/SetWorkerCount returns; non-trivial/distinct = distinct interleaving signatures (hash of the (goroutine role, hook point) sequence) plus feasible gate cases")
 	gcs := gateCases()
 	for i, gc := range gcs {
 		if !c.Take("gate", i) {
@@ -746,6 +852,11 @@ func Run(c *core.Ctx) {
 		runGate(c, i, gc)
 		if i%37 == 0 {
 			c.Sample("gate", fmt.Sprintf("%+v", gc))
+		}
+	}
+	for i := 0; i < c.Pick(240, 6000); i++ {
+		if c.Take("clear", i) {
+			runClear(c, i)
 		}
 	}
 	nd := c.Pick(1500, 20000)
